@@ -5,7 +5,7 @@
 From LC Require Import Lib.Bytes Model.StageList Proofs.StageListP Proofs.StagePathP Proofs.StagePipeP
   Proofs.StageContentP Proofs.StageContentsFmtP Proofs.C06TopP Proofs.C06P Proofs.C06Example Cases.C06.
 
-(* the property predicate (all eleven conjuncts of Cases/C06.v [spec_ok], evaluated by the check on
+(* the property predicate (all conjuncts of Cases/C06.v [spec_ok], evaluated by the check on
    what the stagemaker binary wrote) holds of the model for every well-formed input: every build-root
    tree, package database, selection, add-files script and switch combination *)
 Theorem C06_holds : forall c, C06.wf c = true -> C06.kf c = 0%N -> C06.spec c (C06.model c) = true.
@@ -40,9 +40,30 @@ Theorem C06_hardlink_wellformed : forall i ms, stage_list i = Ok ms ->
 Proof. exact hardlink_wellformed. Qed.
 Print Assumptions C06_hardlink_wellformed.
 
+(* ... and an entry whose contents come from a src= file (inside or outside the build root, of any
+   link count) is a regular-file member of its own name: not a hard link, and no hard link refers
+   to it -- unless a later line names the path again *)
+Theorem C06_src_entry_regular : forall i ms, stage_list i = Ok ms ->
+  forall pre li s post, user_script i = pre ++ OAdd li :: post -> li_src li = Some s ->
+  omits_none post (li_name li) -> ~ ops_name (i_tree i) post (li_name li) ->
+  (exists x, In x ms /\ m_name x = li_name li) /\
+  forall x, In x ms -> (m_name x = li_name li -> m_kind x = KReg) /\ (m_kind x = KLink -> m_link x <> li_name li).
+Proof. exact src_entry_regular. Qed.
+Print Assumptions C06_src_entry_regular.
+Example C06_src_example :
+  map parse_line [bs "file /etc/motd src=$$stageroot/usr/share/skel/motd mod=0600"; bs "file /etc/vimrc src=/etc/vim/vimrc";
+                  bs "file /etc/x src=/a src=/b"; bs "file /etc/* src=/a"; bs "symlink /etc/l src=/a"]
+  = [OAdd (MkLI TFile (bs "/etc/motd") false false false false (Some (SRoot (bs "/usr/share/skel/motd"))));
+     OAdd (MkLI TFile (bs "/etc/vimrc") false false false false (Some (SAbs (bs "/etc/vim/vimrc") None)));
+     OErr; OErr; OErr]
+  /\ resolve_op [(bs "/etc/vim/vimrc", NFile (Some 3))]
+       (OAdd (MkLI TFile (bs "/etc/vimrc") false false false false (Some (SAbs (bs "/etc/vim/vimrc") None))))
+     = OAdd (MkLI TFile (bs "/etc/vimrc") false false false false (Some (SAbs (bs "/etc/vim/vimrc") (Some (NFile (Some 3)))))).
+Proof. exact src_parse_facts. Qed.
+
 (* omit lines, plain or wildcard, remove the matching members *)
 Theorem C06_omit_removes : forall i mf, good_input i -> stage_map i = Ok mf ->
-  forall pre nm w post k, script_ops (i_script i) = pre ++ OOmit nm w :: post ->
+  forall pre nm w post k, user_script i = pre ++ OOmit nm w :: post ->
   omit_hit nm w k = true -> mem k mf = true ->
   ops_name (i_tree i) post k \/ (exists k0, mem k0 mf = true /\ In k (nrparents k0)) \/ k = root_path.
 Proof. exact omit_removes. Qed.
@@ -56,11 +77,11 @@ Print Assumptions C06_omit_removes_now.
    line names, is a member unless an omit line matches it *)
 Theorem C06_member_if_recorded : forall i mf sel, stage_map i = Ok mf ->
   all_contents (selected (i_pkgs i)) = Ok sel ->
-  forall n, In n sel -> lstat (i_tree i) n <> None -> omits_none (script_ops (i_script i)) n -> mem n mf = true.
+  forall n, In n sel -> lstat (i_tree i) n <> None -> omits_none (user_script i) n -> mem n mf = true.
 Proof. exact member_if_recorded. Qed.
 Print Assumptions C06_member_if_recorded.
 Theorem C06_member_if_user : forall i mf, stage_map i = Ok mf ->
-  forall pre li post n, script_ops (i_script i) = pre ++ OAdd li :: post ->
+  forall pre li post n, user_script i = pre ++ OAdd li :: post ->
   In n (op_targets (i_tree i) li) -> (li_skip li = true -> lstat (i_tree i) n <> None) ->
   omits_none post n -> mem n mf = true.
 Proof. exact member_if_user. Qed.
@@ -93,8 +114,8 @@ Example C06_wf_example : C06.wf ex_case = true /\ C06.kf ex_case = 0%N
 Proof. exact ex_case_facts. Qed.
 Example C06_omit_example :
   script_ops [bs "dir /opt/x mod=0755"; bs "# c"; bs "omit ""/usr/bin/ba*"""; bs "tbd /usr/bin/bar absent=skip"]
-  = ([OAdd (MkLI TDir (bs "/opt/x") false false false false)] ++ OOmit (bs "/usr/bin/ba*") true
-    :: [OAdd (MkLI TTbd (bs "/usr/bin/bar") false false false true)])%list
+  = ([OAdd (MkLI TDir (bs "/opt/x") false false false false None)] ++ OOmit (bs "/usr/bin/ba*") true
+    :: [OAdd (MkLI TTbd (bs "/usr/bin/bar") false false false true None)])%list
   /\ omit_hit (bs "/usr/bin/ba*") true (bs "/usr/bin/bar") = true
   /\ omit_hit (bs "/usr/bin/ba*") true (bs "/usr/bin/sub/bar") = false.
 Proof. exact ex_omit_facts. Qed.
